@@ -8,7 +8,7 @@ Recs == ndJsonDeserialize(IOEnv.TRACE_FILE)
 N == Len(Recs)
 Rng(s) == {s[i] : i \in DOMAIN s}
 
-PinOf(v) == [k |-> v.k, mode |-> v.mode, allocs |-> Rng(v.allocs), everywhere |-> v.everywhere, rmin |-> v.rmin, rmax |-> v.rmax]
+PinOf(v) == [k |-> v.k, mode |-> v.mode, allocs |-> Rng(v.allocs), everywhere |-> v.everywhere, rmin |-> v.rmin, rmax |-> v.rmax, exp |-> v.exp]
 PsOf(r) == [c \in DOMAIN r.ps |-> PinOf(r.ps[c])]
 
 \* The repository's mock IPFS daemon (test/ipfs_mock.go) records every pin/add as recursive (it reads a
@@ -24,6 +24,9 @@ BadAlloc == {i \in 1..N : \E c \in DOMAIN Recs[i].ps :
                 pin.k = "pin" /\ ~pin.everywhere /\
                 ~(Cardinality(pin.allocs) >= 1 /\ Cardinality(pin.allocs \cap Rng(Recs[i].up)) <= pin.rmax)}
 Stuck == {}
+\* every run ends with a StateSync round on all live peers: no expired pin is left, and each
+\* expired pin was unpinned by exactly one peer (the driver counts the unpin calls per CID)
+BadExpiry == {i \in 1..N : ~NoExpiredOn(PsOf(Recs[i])) \/ \E c \in DOMAIN Recs[i].expunpins : Recs[i].expunpins[c] # 1}
 
-ASSUME ndJsonSerialize(IOEnv.VERDICT_FILE, <<[n |-> N, e2e |-> BadE2E, alloc |-> BadAlloc, stuck |-> Stuck]>>)
+ASSUME ndJsonSerialize(IOEnv.VERDICT_FILE, <<[n |-> N, e2e |-> BadE2E, alloc |-> BadAlloc, stuck |-> Stuck, expiry |-> BadExpiry]>>)
 =============================================================================
